@@ -2078,7 +2078,7 @@ pub struct LargeCommunitiesList {
 }
 
 impl LargeCommunitiesList {
-    fn new(communities: Vec<LargeCommunity>)
+    pub(crate) fn new(communities: Vec<LargeCommunity>)
         -> LargeCommunitiesList
     {
         LargeCommunitiesList {communities }
